@@ -29,6 +29,7 @@ fn main() {
         "check" => run(&a),
         "replay" => replay(&a),
         "modeltest" => modeltest(&a.rest),
+        "flushdemo" => flushdemo(),
         _ => vhcore::machinery_failure("usage: c24 check C24 --tier quick|thorough"),
     };
     std::process::exit(code);
@@ -548,4 +549,34 @@ fn modeltest(args: &[String]) -> i32 {
         }
     }
     0
+}
+
+/// Debug aid / demonstration: after `write_changes_to_file` returns, is the text on disk?
+fn flushdemo() -> i32 {
+    let work = vhcore::work_dir("C24-flushdemo");
+    let file = work.join("f.sw");
+    std::fs::write(&file, "library;\n").unwrap();
+    let rt = tokio::runtime::Builder::new_multi_thread().worker_threads(2).enable_all().build().unwrap();
+    let uri = lsp_types::Url::from_file_path(&file).unwrap();
+    let docs = sway_lsp::core::document::Documents::new();
+    let mut stale = 0;
+    let n = 300;
+    rt.block_on(async {
+        docs.handle_open_file(&uri).await;
+        for i in 0..n {
+            let text = format!("library;\n// version {i}\n{}", "x".repeat(200 + i));
+            let ch = vec![lsp_types::TextDocumentContentChangeEvent { range: None, range_length: None, text: text.clone() }];
+            docs.write_changes_to_file(&uri, &ch).await.unwrap();
+            let on_disk = std::fs::read_to_string(&file).unwrap_or_default();
+            if on_disk != text {
+                stale += 1;
+            }
+        }
+    });
+    println!("write_changes_to_file returned {n} times; the file on disk did not contain the new text {stale} times");
+    if stale > 0 {
+        1
+    } else {
+        0
+    }
 }
